@@ -113,6 +113,12 @@ class Context:
         assert isinstance(ref_name, str)
         other = self._ref_values.get(ref_name)
         if other is None:
+            # the name may have been handed out as an auto-generated
+            # name of another expression (see expr.make_ref)
+            auto = self.__dict__.get("_auto_ref_owners", {}).get(ref_name)
+            if auto is not None and auto is not expr:
+                other = auto
+        if other is None:
             # a new reference
             pass
         elif other is expr:
